@@ -1,6 +1,7 @@
 """C18 - the HTTP integrations (aiohttp, flask, werkzeug) relay the dispatcher's verdict unchanged."""
 from __future__ import annotations
 
+import io
 import json
 
 import pjrpc
@@ -18,12 +19,25 @@ RULE = ('one case = one HTTP POST (media type header x body from the C01-C03 cor
         'with the same probe registry called directly with the same text: status (the recorded argument of the status function '
         'must be the twin\'s codes), body document, JSON content type, empty 200 when the dispatcher returns nothing, 415 and no '
         'execution for any other media type, no exception escaping the framework entry point, and equality of the replies of '
-        'the three integrations to the same request. Distinct = distinct (integration, configuration, media type, body).')
+        'the three integrations to the same request. The bodies also travel in other framings than one Content-Length body: '
+        'without a Content-Length (Transfer-Encoding: chunked from the aiohttp client - an async generator in two / many pieces, '
+        'a bytes body sent chunked - and a hand-written request with chunk extensions, upper-case sizes and a trailer; for the '
+        'WSGI integrations an environ without CONTENT_LENGTH, with wsgi.input_terminated and a stream that may hand out 7 bytes '
+        'per read), with the right Content-Length but arriving in pieces (several socket writes / short reads), after '
+        '`Expect: 100-continue`, and with a Content-Length that announces 3 bytes less than are written (the body is then the '
+        'announced prefix): same oracle, on the body the framing defines. Distinct = distinct (integration, configuration, media '
+        'type, body, framing).')
 ASSUMPTIONS = [
     'bodies that are not UTF-8: only "nothing executed and the reply is 4xx or a -32700 document" is judged',
     'case variants of the media type (APPLICATION/JSON) are generated but not judged',
     'for the empty reply only status and body are judged (frameworks differ on the Content-Type of an empty body)',
     'the werkzeug integration has no status-by-error option: it is judged with the default (200) only',
+    'a finding made under another framing is named after the framing (mechanism suffix :body-framing=...) only when the control - the '
+    'same body sent once more to the same application as one plain Content-Length body - is answered differently',
+    'framings: the WSGI integrations are driven with a hand-written environ passed to the WSGI callable (the test clients derive '
+    'CONTENT_LENGTH from the stream themselves); streamed aiohttp requests use a connection of their own each; a Content-Length '
+    'LARGER than the body, and a WSGI environ with neither CONTENT_LENGTH nor wsgi.input_terminated, are not generated (what the '
+    'body is then is the framework\'s / server\'s business)',
 ]
 SHARDS = {'quick': 4, 'thorough': 16}
 TIMEOUT = {'quick': 600, 'thorough': 3000}
@@ -35,9 +49,36 @@ ANCHORS = [
 ]
 INTEGRATIONS = ['aiohttp', 'flask', 'werkzeug']
 DOCUMENTED = ['application/json', 'application/json-rpc', 'application/jsonrequest']
+# How the body travels. The first column names the class; then the variant used with the aiohttp integration (real HTTP over
+# loop-back) and the one used with the WSGI integrations (what a WSGI server presents for such a request).
+#   aiohttp variants: 'chunked-generator' (client streams an async generator: Transfer-Encoding: chunked, no Content-Length, two
+#   pieces), 'chunked-pieces' (the same in many small pieces), 'chunked-flag' (a bytes body sent chunked), 'expect-100' (headers
+#   first, body after the server's 100 Continue), 'raw-chunk-extensions' (hand-written request: chunk extensions, upper-case
+#   sizes, a trailer field), 'raw-split-writes' (right Content-Length, body written to the socket in several pieces),
+#   'raw-length-shorter' (Content-Length announces fewer bytes than are written: the body IS the announced prefix)
+#   WSGI variants: 'terminated' (no CONTENT_LENGTH, wsgi.input_terminated set, HTTP_TRANSFER_ENCODING: chunked),
+#   'terminated-short-reads' (the same, the stream hands out at most 7 bytes per read), 'short-reads' (right CONTENT_LENGTH, short
+#   reads), 'length-shorter' (CONTENT_LENGTH smaller than what the stream holds), 'expect-header' (an Expect header came along)
+FRAMINGS = {
+    'plain': ('plain', 'plain'),
+    'no-content-length:streamed-in-two-pieces': ('chunked-generator', 'terminated'),
+    'no-content-length:streamed-in-many-pieces': ('chunked-pieces', 'terminated-short-reads'),
+    'no-content-length:whole-body-as-one-chunk': ('chunked-flag', 'terminated'),
+    'no-content-length:chunk-extensions-and-trailer': ('raw-chunk-extensions', 'terminated-short-reads'),
+    'content-length:body-arrives-in-pieces': ('raw-split-writes', 'short-reads'),
+    'content-length:sent-after-100-continue': ('expect-100', 'expect-header'),
+    'content-length:announces-less-than-is-sent': ('raw-length-shorter', 'length-shorter'),
+}
+SHORTER_BY = 3          # 'announces-less': the announced length is this much smaller than what is written
+
 FLOORS = {'*': {**{f'{i}:{t}': 10 for i in INTEGRATIONS for t in DOCUMENTED},
                 **{f'{i}:{t}+params': 10 for i in INTEGRATIONS for t in DOCUMENTED},
                 **{f'{i}:refused-type': 30 for i in INTEGRATIONS}, **{f'{i}:empty-reply': 5 for i in INTEGRATIONS},
+                **{f'{i}:framing:{f}': 20 for i in INTEGRATIONS for f in FRAMINGS if f != 'plain'},
+                'aiohttp:reply-holds-a-mapping-whose-keys-were-not-all-strings': 100, 'flask:reply-holds-a-mapping-whose-keys-were-not-all-strings': 100,
+                'werkzeug:reply-holds-a-mapping-whose-keys-were-not-all-strings': 30,
+                'aiohttp:request-went-out-without-a-content-length': 60, 'framing:method-executed': 100, 'framing:empty-reply': 10,
+                'framing:batch': 20, 'framing:cross-integration-comparisons': 50,
                 'status:non-200': 50, 'process-wide-default-content-type-changed': 100, 'body-starts-with-a-byte-order-mark': 10, 'status:without-a-registered-reason-phrase': 30, 'host-application-read-the-body-first': 100, 'endpoint:added': 50, 'endpoint:added-sub': 50, 'endpoint:added-bp': 50, 'endpoint:sub-application': 50, 'charset:non-utf8-declared': 30, 'cross-integration-comparisons': 200, 'non-utf8-bodies': 10}}
 
 STATUS_TABLE = {-32700: 400, -32600: 400, -32601: 404, -32602: 422, -32000: 500, -32603: 500}
@@ -187,18 +228,43 @@ class App:
             return client
         self.client = world.run(start())
 
-    def post(self, path_key, media_type, body: bytes):
-        """-> ('reply', status, content_type, body bytes) | ('exc', exception)"""
+    def post(self, path_key, media_type, body: bytes, variant='plain'):
+        """-> ('reply', status, content_type, body bytes) | ('exc', exception); variant: see FRAMINGS"""
         path = self.paths.get(path_key, self.paths['root'])
         self.log.clear()
         del self.status.args[:]
+        self.sent_headers = None
         try:
             if self.integration == 'aiohttp':
-                async def go(path=path, media_type=media_type, body=body):
+                import aiohttp
+
+                async def go(path=path, media_type=media_type, body=body, variant=variant):
                     headers = {'Content-Type': media_type} if media_type is not None else {}
                     skip = None if media_type is not None else ['Content-Type']
-                    async with self.client.post(path, data=body, headers=headers, skip_auto_headers=skip) as r:
-                        return r.status, r.headers.get('Content-Type'), await r.read()
+                    if variant.startswith('raw-'):
+                        return await self._raw_post(path, media_type, body, variant)
+                    data, extra = body, {}
+                    if variant in ('chunked-generator', 'chunked-pieces'):
+                        data = _pieces(body, 2 if variant == 'chunked-generator' else 9)
+                    elif variant == 'chunked-flag':
+                        extra['chunked'] = True
+                    elif variant == 'expect-100':
+                        extra['expect100'] = True
+                    # (streamed bodies go over a connection of their own: a reply that arrives before the whole body was written
+                    #  must not leave half a request on a connection that the next case would reuse)
+                    session = self.client.session if variant == 'plain' else await self._one_shot_session()
+                    for attempt in (0, 1):
+                        try:
+                            async with session.post(self.client.make_url(path), data=data, headers=headers, skip_auto_headers=skip, **extra) as r:
+                                self.sent_headers = {k.lower(): v for k, v in r.request_info.headers.items()}
+                                return r.status, r.headers.get('Content-Type'), await r.read()
+                        except aiohttp.ClientConnectionError:
+                            # a streamed body and a server that answers without reading it: the connection may be gone before the
+                            # reply was read - tried once more, then it is what was observed
+                            if variant == 'plain' or attempt:
+                                raise
+                            if variant in ('chunked-generator', 'chunked-pieces'):
+                                data = _pieces(body, 2 if variant == 'chunked-generator' else 9)
 
                 async def guarded():
                     # a reply that never comes must not stall the run: after a generous wait a CONTROL request (a plain
@@ -210,7 +276,7 @@ class App:
                         pass
                     try:
                         control = json.dumps({'jsonrpc': '2.0', 'id': 'control', 'method': 'which'}).encode()
-                        cs, _, cb = await asyncio.wait_for(go(self.paths['root'], 'application/json', control), NO_REPLY_WAIT)
+                        cs, _, cb = await asyncio.wait_for(go(self.paths['root'], 'application/json', control, 'plain'), NO_REPLY_WAIT)
                         return ('noreply', cs, cb)
                     except asyncio.TimeoutError:
                         return ('stalled',)
@@ -218,12 +284,139 @@ class App:
                 if got[0] in ('noreply', 'stalled'):
                     return got
                 s, ct, b = got
-            else:
+            elif variant == 'plain':
                 r = self.client.post(path, data=body, content_type=media_type)
                 s, ct, b = r.status_code, r.headers.get('Content-Type'), r.get_data()
+            else:
+                # what a WSGI server presents: the input stream, CONTENT_LENGTH or wsgi.input_terminated, the request's header fields
+                # (the test clients derive CONTENT_LENGTH from the stream they are given: the environ is written here instead and
+                # handed to the WSGI application the way a server does)
+                import werkzeug.test
+                builder = werkzeug.test.EnvironBuilder(path=path, method='POST', content_type=media_type)
+                try:
+                    environ = builder.get_environ()
+                finally:
+                    builder.close()
+                environ.pop('CONTENT_LENGTH', None)
+                environ['wsgi.input'] = _ShortReads(body) if variant.endswith('short-reads') else io.BytesIO(body)
+                if variant.startswith('terminated'):
+                    environ.update({'wsgi.input_terminated': True, 'HTTP_TRANSFER_ENCODING': 'chunked'})
+                elif variant == 'length-shorter':
+                    environ['CONTENT_LENGTH'] = str(max(0, len(body) - SHORTER_BY))
+                else:
+                    environ['CONTENT_LENGTH'] = str(len(body))
+                if variant == 'expect-header':
+                    environ['HTTP_EXPECT'] = '100-continue'
+                wsgi_app = self.flask_app if self.integration == 'flask' else self.rpc
+                app_iter, status_line, hdrs = werkzeug.test.run_wsgi_app(wsgi_app, environ, buffered=True)
+                try:
+                    b = b''.join(app_iter)
+                finally:
+                    if hasattr(app_iter, 'close'):
+                        app_iter.close()
+                s, ct = int(status_line.split(' ', 1)[0]), hdrs.get('Content-Type')
         except Exception as e:
             return ('exc', e)
         return ('reply', s, ct, b)
+
+
+    async def _one_shot_session(self):
+        import aiohttp
+        if getattr(self, '_fresh', None) is None:
+            self._fresh = aiohttp.ClientSession(connector=aiohttp.TCPConnector(force_close=True))
+        return self._fresh
+
+    async def _raw_post(self, path, media_type, body, variant):
+        """one hand-written HTTP/1.1 request over a fresh connection to the loop-back server; the (first) reply is parsed here"""
+        import asyncio
+        server = self.client.server
+        head = [f'POST {path} HTTP/1.1', f'Host: {server.host}:{server.port}', 'Connection: close', 'User-Agent: vmon-c18']
+        if media_type is not None:
+            head.append(f'Content-Type: {media_type}')
+        writes = []
+        if variant == 'raw-chunk-extensions':
+            head += ['Transfer-Encoding: chunked', 'Trailer: X-Probe-Trailer']
+            step = max(1, (len(body) + 3) // 4)
+            for n, i in enumerate(range(0, len(body), step)):
+                piece = body[i:i + step]
+                size = ('%X' if n % 2 else '%x') % len(piece)
+                writes.append(size.encode() + (b';probe=1' if n % 2 == 0 else b'') + b'\r\n' + piece + b'\r\n')
+            writes.append(b'0\r\nX-Probe-Trailer: done\r\n\r\n')
+        elif variant == 'raw-split-writes':
+            head.append(f'Content-Length: {len(body)}')
+            step = max(1, (len(body) + 2) // 3)
+            writes = [body[i:i + step] for i in range(0, len(body), step)]
+        else:
+            head.append(f'Content-Length: {max(0, len(body) - SHORTER_BY)}')
+            writes = [body]
+        self.sent_headers = {h.split(':', 1)[0].lower(): h.split(':', 1)[1].strip() for h in head[1:]}
+        # a server may answer (and close) before it was sent everything - a refusal needs no body -, and what it closes with unread
+        # input is reset: the reply is read as far as ITS framing says and no further; a connection lost before that is tried once more
+        for attempt in (0, 1):
+            try:
+                return await self._raw_exchange(server, '\r\n'.join(head).encode('latin-1') + b'\r\n\r\n', writes)
+            except (ConnectionError, asyncio.IncompleteReadError):
+                if attempt:
+                    raise
+
+    @staticmethod
+    async def _raw_exchange(server, head, writes):
+        import asyncio
+        reader, writer = await asyncio.open_connection(server.host, server.port)
+        try:
+            try:
+                writer.write(head)
+                await writer.drain()
+                for w in writes:
+                    await asyncio.sleep(0.001)           # (let the server see the pieces one by one)
+                    writer.write(w)
+                    await writer.drain()
+            except ConnectionError:
+                pass                                     # (the reply, if there is one, is still to be read)
+            head_ = (await reader.readuntil(b'\r\n\r\n'))[:-4]
+            lines = head_.decode('latin-1').split('\r\n')
+            status = int(lines[0].split(' ', 2)[1])
+            hdrs = {ln.split(':', 1)[0].strip().lower(): ln.split(':', 1)[1].strip() for ln in lines[1:] if ':' in ln}
+            if 'content-length' in hdrs:
+                rest = await reader.readexactly(int(hdrs['content-length']))
+            else:
+                rest = await reader.read()
+        finally:
+            writer.close()
+        if 'content-length' not in hdrs and hdrs.get('transfer-encoding', '').lower() == 'chunked':
+            out = b''
+            while rest:
+                size, _, rest = rest.partition(b'\r\n')
+                n = int(size.split(b';')[0], 16)
+                if n == 0:
+                    break
+                out, rest = out + rest[:n], rest[n + 2:]
+            rest = out
+        return status, hdrs.get('content-type'), rest
+
+
+async def _pieces(body, n):
+    """an async generator over the body in (at most) n pieces: the aiohttp client then streams it chunked"""
+    step = max(1, (len(body) + n - 1) // n)
+    for i in range(0, len(body), step):
+        yield body[i:i + step]
+
+
+class _ShortReads(io.RawIOBase):
+    """a WSGI input stream that hands out at most 7 bytes per read (a socket does not deliver a body in one piece)"""
+
+    def __init__(self, body):
+        super().__init__()
+        self._body, self._pos = body, 0
+
+    def readable(self):
+        return True
+
+    def readinto(self, b):
+        n = min(7, len(b), len(self._body) - self._pos)
+        b[:n] = self._body[self._pos:self._pos + n]
+        self._pos += n
+        return n
 
 
 _APPS = {}
@@ -259,21 +452,37 @@ def media_class(mt):
     return 'other', None
 
 
-def run_post(ctx, root, status_kind, path_key, media_type, body_hex, family, default_ct=None):
+def run_post(ctx, root, status_kind, path_key, media_type, body_hex, family, default_ct=None, framing='plain'):
     """default_ct: the serving process has chosen another default content type (pjrpc.set_default_content_type): that is the
-    type its replies carry; the documented request types stay the documented request types"""
+    type its replies carry; the documented request types stay the documented request types.
+    framing: how the body travels (a key of FRAMINGS)"""
     if default_ct is None:
-        return _run_post(ctx, root, status_kind, path_key, media_type, body_hex, family, 'application/json')
+        return _run_post(ctx, root, status_kind, path_key, media_type, body_hex, family, 'application/json', framing)
     pjrpc.set_default_content_type(default_ct)
     try:
         ctx.hit('process-wide-default-content-type-changed')
-        return _run_post(ctx, root, status_kind, path_key, media_type, body_hex, family, default_ct)
+        return _run_post(ctx, root, status_kind, path_key, media_type, body_hex, family, default_ct, framing)
     finally:
         pjrpc.set_default_content_type('application/json')
 
 
-def _run_post(ctx, root, status_kind, path_key, media_type, body_hex, family, reply_ct):
-    body = bytes.fromhex(body_hex)
+def _run_post(ctx, root, status_kind, path_key, media_type, body_hex, family, reply_ct, framing='plain'):
+    sent = bytes.fromhex(body_hex)
+    # the request's body is what the framing says it is: with a Content-Length that announces less than is written, the prefix
+    body = sent[:max(0, len(sent) - SHORTER_BY)] if framing == 'content-length:announces-less-than-is-sent' else sent
+    how = '' if framing == 'plain' else ':body-framing=' + framing
+
+    current = {}
+
+    def viol(mechanism, *a, **k):
+        # the finding is named after the framing only if the framing matters: the same body sent once more to the same
+        # application as one plain Content-Length body (the control) must then be answered differently
+        suffix, app_, rep_ = how, current.get('app'), current.get('rep')
+        if how and app_ is not None and rep_[0] in ('reply', 'exc'):
+            control = app_.post(path_key, media_type, body, 'plain')
+            if control[0] == rep_[0] and (control[1:2] + control[3:] == rep_[1:2] + rep_[3:] if rep_[0] == 'reply' else type(control[1]) is type(rep_[1])):
+                suffix = ''
+        ctx.violation(mechanism + suffix, *a, **k)
     charset = declared_charset(media_type)
     if charset not in ('utf-8', 'utf8'):
         ctx.hit('charset:non-utf8-declared')
@@ -294,25 +503,37 @@ def _run_post(ctx, root, status_kind, path_key, media_type, body_hex, family, re
         if getattr(app, 'silent', False):
             ctx.skip('application-already-reported-silent')      # one report per application; every further one would wait again
             continue
-        rep = app.post(path_key, media_type, body)
-        cls = (integration, root, status_kind, path_key, media_type, body_hex)
-        fam = f'{integration}:{mclass}'
+        variant = FRAMINGS[framing][0 if integration == 'aiohttp' else 1]
+        rep = app.post(path_key, media_type, sent, variant)
+        current.update(app=app, rep=rep)
+        cls = (integration, root, status_kind, path_key, media_type, body_hex, framing)
+        fam = f'{integration}:{mclass}' + (':' + framing.split(':')[0] if framing != 'plain' else '')
+        if framing != 'plain':
+            ctx.hit(f'{integration}:framing:{framing}')
+            if integration == 'aiohttp' and rep[0] == 'reply' and framing.startswith('no-content-length'):
+                # (the harness's own part: the request really went out chunked, without a Content-Length)
+                h = app.sent_headers or {}
+                if 'content-length' in h or h.get('transfer-encoding', '').lower() != 'chunked':
+                    ctx.skip('client-did-not-send-the-body-chunked')
+                    continue
+                ctx.hit('aiohttp:request-went-out-without-a-content-length')
         if rep[0] == 'stalled':
             ctx.skip('loop-back-server-answers-nothing-at-all')         # inconclusive: the machine, not the library
             continue
         if rep[0] == 'noreply':
             app.silent = True
-            ctx.violation('no-http-reply-while-the-application-answers-other-requests', fam, cls, integration=integration, root_path=root,
+            viol('no-http-reply-while-the-application-answers-other-requests', fam, cls, integration=integration, root_path=root,
                           endpoint=path_key, media_type=media_type, body=text if text is not None else body_hex,
                           waited_seconds=NO_REPLY_WAIT, control_request_status=rep[1], executions=list(app.log.calls))
             continue
         wit = dict(integration=integration, root_path=root, status_function=status_kind, endpoint=path_key, media_type=media_type,
+                   body_framing=framing, how_it_was_sent=variant, bytes_written=len(sent),
                    body=text if text is not None else body_hex, reply=list(rep[:3]) + ([rep[3].decode('utf-8', 'replace')] if rep[0] == 'reply' else []),
                    executions=list(app.log.calls), status_function_arguments=list(app.status.args))
         if path_key != 'root':
             ctx.hit('endpoint:' + path_key)
         if rep[0] == 'exc':
-            ctx.violation(f'exception-escapes-the-framework-entry-point:{type(rep[1]).__name__}:{mclass}', fam, cls, **wit)
+            viol(f'exception-escapes-the-framework-entry-point:{type(rep[1]).__name__}:{mclass}', fam, cls, **wit)
             continue
         _, status, ctype, rbody = rep
         if mclass == 'case-variant':
@@ -321,38 +542,47 @@ def _run_post(ctx, root, status_kind, path_key, media_type, body_hex, family, re
         if mclass in ('other', 'missing'):
             ctx.hit(f'{integration}:refused-type')
             if app.log.calls:
-                ctx.violation(f'method-executed-for-unsupported-media-type:{mclass}', fam, cls, **wit)
+                viol(f'method-executed-for-unsupported-media-type:{mclass}', fam, cls, **wit)
             elif status != 415:
-                ctx.violation(f'unsupported-media-type-not-refused-with-415:{mclass}' + (':non-utf8-body' if text is None else ''),
+                viol(f'unsupported-media-type-not-refused-with-415:{mclass}' + (':non-utf8-body' if text is None else ''),
                               fam, cls, **wit)
             else:
                 ctx.ok(fam, cls, sample=wit)
                 replies[integration] = ('415',)
             continue
         ctx.hit(f'{integration}:{main}' + ('+params' if mclass == 'documented+params' else ''))
+        if family == 'non-string-keys':
+            ctx.hit(f'{integration}:reply-holds-a-mapping-whose-keys-were-not-all-strings')
         if text is None:
             ctx.hit('non-utf8-bodies')
             okish = not app.log.calls and (400 <= status < 500 or _is_parse_error(rbody))
             if not okish:
-                ctx.violation('non-utf8-body-executed-or-answered-2xx', fam, cls, **wit)
+                viol('non-utf8-body-executed-or-answered-2xx', fam, cls, **wit)
             else:
                 ctx.ok(fam + ':non-utf8', cls, sample=wit)
             continue
         # ---- the twin dispatcher's verdict on the same text
         t = serverside.observe(app.twins[path_key if integration != 'werkzeug' else 'root'], text)
         if status == 415:
-            ctx.violation(f'documented-media-type-refused:{main}' + (':with-parameters' if mclass == 'documented+params' else ''), fam, cls, **wit)
+            viol(f'documented-media-type-refused:{main}' + (':with-parameters' if mclass == 'documented+params' else ''), fam, cls, **wit)
             continue
         if t.status == 'exc':
             ctx.skip('twin-dispatcher-raised')
             continue
         if serverside.normalise_calls(app.log.calls) != serverside.normalise_calls(t.calls):
-            ctx.violation('executions-differ-from-direct-dispatch', fam, cls, twin_executions=t.calls, **wit)
+            viol('executions-differ-from-direct-dispatch', fam, cls, twin_executions=t.calls, **wit)
             continue
+        if framing != 'plain':
+            if t.calls:
+                ctx.hit('framing:method-executed')
+            if t.raw is None:
+                ctx.hit('framing:empty-reply')
+            if isinstance(t.doc, list):
+                ctx.hit('framing:batch')
         if t.raw is None:
             ctx.hit(f'{integration}:empty-reply')
             if status != 200 or rbody != b'':
-                ctx.violation('empty-dispatcher-reply-not-relayed-as-empty-200', fam, cls, **wit)
+                viol('empty-dispatcher-reply-not-relayed-as-empty-200', fam, cls, **wit)
             else:
                 ctx.ok(fam + ':empty', cls, sample=wit)
                 replies[integration] = (200, None)
@@ -368,26 +598,29 @@ def _run_post(ctx, root, status_kind, path_key, media_type, body_hex, family, re
         try:
             doc = strictjson.decode(rbody.decode('utf-8'))
         except Exception:
-            ctx.violation('reply-body-not-json', fam, cls, twin_reply=twin_text, **wit)
+            viol('reply-body-not-json', fam, cls, twin_reply=twin_text, **wit)
             continue
         if not strictjson.typed_eq(doc, t.doc):
-            ctx.violation('reply-document-differs-from-dispatcher-response', fam, cls, twin_reply=twin_text, **wit)
+            viol('reply-document-differs-from-dispatcher-response', fam, cls, twin_reply=twin_text, **wit)
             continue
         if integration != 'werkzeug' and (len(app.status.args) != 1 or tuple(app.status.args[0]) != tuple(twin_codes)):
-            ctx.violation('status-function-not-called-once-with-the-dispatchers-codes', fam, cls, twin_codes=list(twin_codes), **wit)
+            viol('status-function-not-called-once-with-the-dispatchers-codes', fam, cls, twin_codes=list(twin_codes), **wit)
             continue
         if status != want:
-            ctx.violation('status-is-not-the-status-functions-choice', fam, cls, expected_status=want, **wit)
+            viol('status-is-not-the-status-functions-choice', fam, cls, expected_status=want, **wit)
             continue
         # (the aiohttp integration always labels its replies application/json, flask / werkzeug use the process-wide default)
         if (ctype or '').split(';', 1)[0].strip() not in ('application/json', reply_ct):
-            ctx.violation('reply-content-type-not-json', fam, cls, **wit)
+            viol('reply-content-type-not-json', fam, cls, **wit)
             continue
         ctx.ok(fam + ':relayed', cls, sample=wit)
         replies[integration] = (status, json.dumps(doc, sort_keys=True))
     # equivalence between integrations on the same request (default status function: comparable everywhere)
+    current.clear()
     if len(replies) > 1:
         ctx.hit('cross-integration-comparisons')
+        if framing != 'plain':
+            ctx.hit('framing:cross-integration-comparisons')
         vals = list(replies.items())
         ref = vals[0]
         for name, rep in vals[1:]:
@@ -395,8 +628,8 @@ def _run_post(ctx, root, status_kind, path_key, media_type, body_hex, family, re
             if status_kind != 'default' and 'werkzeug' in (ref[0], name):
                 continue
             if a != b:
-                ctx.violation('integrations-reply-differently', 'cross', (root, status_kind, path_key, media_type, body_hex),
-                              media_type=media_type, body=text, a=ref[0], reply_a=a, b=name, reply_b=b)
+                viol('integrations-reply-differently', 'cross', (root, status_kind, path_key, media_type, body_hex, framing),
+                              media_type=media_type, body_framing=framing, body=text, a=ref[0], reply_a=a, b=name, reply_b=b)
                 break
 
 
@@ -434,6 +667,13 @@ def bodies(rng, full):
     for d in fixed:
         out.append(('corpus', json.dumps(d).encode()))
         out.append(('corpus-utf8', json.dumps(d, ensure_ascii=False).encode('utf-8')))
+    # results / error data that are mappings whose keys are not all strings (ints, negative ints and strings side by side): the
+    # reply is the dispatcher's document - {"200": 7, "total": 8, "404": 1} - from every integration
+    for d in (docs.obj(id=1, method='keyed', params=['mixed']), docs.obj(id=2, method='keyed', params=['neg-and-str']),
+              docs.obj(id=3, method='keyed', params=['int']), docs.obj(id=4, method='keyed', params={'kind': 'mixed', 'how': 'error'}),
+              docs.obj(id='e', method='keyed', params={'kind': 'neg-and-str', 'how': 'error'}),
+              [docs.obj(id=1, method='keyed', params=['mixed']), docs.obj(id=2, method='keyed', params=['int', 'error']), docs.obj(method='keyed', params=['mixed'])]):
+        out.append(('non-string-keys', json.dumps(d).encode()))
     for t in ('', 'not json', '{"jsonrpc": "2.0", "id": 1, "method": "ok"', '[1,]', 'null', '{"jsonrpc":"2.0","id":1,"method":"echo","params":[1' + '0' * 5000 + ']}'):
         out.append(('garbage', t.encode()))
     # a byte-order mark in front of an otherwise well-formed document: what the dispatcher says about that TEXT is the verdict
@@ -457,6 +697,7 @@ def gen(ctx):
     rng = ctx.rng
     full = ctx.thorough
     bs = bodies(rng, full)
+    yield from framing_cases(bs, full)
     k = 0
     for mt, b in charset_cases(rng, full):
         k += 1
@@ -480,6 +721,24 @@ def gen(ctx):
                                        media_type=mt, body_hex=b.hex(), family=fam, **({'default_ct': 'application/json-rpc'} if k % 9 == 0 else {}))
 
 
+def framing_cases(bs, full):
+    """the bodies once more, travelling in every other framing: two documented media types and a refused one per body"""
+    k = 0
+    chosen = [(fam, b) for fam, b in bs if full or fam in ('corpus', 'garbage', 'bom', 'non-utf8', 'non-string-keys')]
+    for fam, b in chosen:
+        for framing in FRAMINGS:
+            if framing == 'plain':
+                continue
+            for j in range(3 if not full else 5):
+                k += 1
+                mt = (DOCUMENTED[k % 3], DOCUMENTED[(k + 1) % 3] + '; charset=utf-8', MEDIA[10 + k % 9], 'application/json', MEDIA[3 + k % 5])[j]
+                # (the first of a body's cases goes to the configuration all three integrations have: root endpoint, default status)
+                yield 'post', dict(root=('/rpc', '/api', '/api/v1/')[k % 3],
+                                   status_kind='default' if j == 0 else ('default', 'table', 'all-errors-400', 'any-error-400', 'unassigned')[k % 5],
+                                   path_key='root' if j == 0 else ('root', 'added', 'root', 'added-sub', 'sub-application', 'added-bp')[k % 6],
+                                   media_type=mt, body_hex=b.hex(), family=fam, framing=framing)
+
+
 def charset_cases(rng, full):
     """(media type, body bytes) where the body is encoded in the charset the header declares"""
     texts = [json.dumps(d, ensure_ascii=False) for d in (
@@ -495,6 +754,14 @@ def charset_cases(rng, full):
             for mt in DOCUMENTED:
                 for f in forms:
                     yield f.format(mt=mt, cs=cs), b
+
+
+def finish(ctx):
+    for app in _APPS.values():
+        fresh = getattr(app, '_fresh', None)
+        if fresh is not None:
+            world.run(fresh.close())
+            app._fresh = None
 
 
 KINDS = {'post': run_post}
